@@ -49,6 +49,7 @@ func RunOne(scn *Scenario, tier string, seed uint64, c *Choices, logOn bool) *Re
 		leak = RunBubble(env, func() { scn.Run(env) })
 	} else {
 		func() {
+			defer installSeq(env)()
 			defer func() {
 				if r := recover(); r != nil {
 					switch x := r.(type) {
